@@ -6,7 +6,8 @@ from fractions import Fraction
 import numpy as np
 import sympy
 
-STATE_POOLS = [["S", "I", "R", "E", "W"], ["X", "Y", "Z", "U", "V"], ["A", "B", "C", "D", "F"]]
+STATE_POOLS = [["S", "I", "R", "E", "W"], ["X", "Y", "Z", "U", "V"], ["A", "B", "C", "D", "F"],
+               ["y1", "y2", "y3", "y4", "y5"]]
 PARAMS = ["beta", "gamma", "mu", "kappa", "nu"]
 
 
@@ -49,7 +50,8 @@ JUMP_KINDS = ["linear", "linear", "massaction1", "saturating", "const"]
 def gen_definition(rng, kinds=ALL_KINDS, max_states=5, max_events=5, max_trans=3, types="TBD",
                    sym_mag=True, odes=True, min_events=0, min_states=1):
     nS = int(rng.integers(min_states, max_states + 1))
-    states = STATE_POOLS[int(rng.integers(0, 3))][:nS]
+    pool = int(rng.integers(0, 4))
+    states = STATE_POOLS[pool][:nS]
     nP = int(rng.integers(1, 6))
     params = PARAMS[:nP]
     nE = int(rng.integers(min_events, max_events + 1))
@@ -87,9 +89,8 @@ def gen_definition(rng, kinds=ALL_KINDS, max_states=5, max_events=5, max_trans=3
             sign = "-" if rng.random() < 0.5 else ""
             ode_terms.append(dict(state=int(rng.integers(0, nS)), eqn=sign + rate))
     decl = ["list", "comma", "space", "range"][int(rng.integers(0, 4))]
-    if decl == "range":
-        # range-style state names y1:n  -> states y1..y(n-1)?  pygom's vector form; keep plain names unless nS>=2
-        decl = "list"
+    if decl == "range" and pool != 3:
+        decl = "list"            # the range form 'y1:n' (states y1 .. y(n-1)) needs the numbered pool
     return dict(states=states, params=params, derived=[[k, v] for k, v in derived.items()],
                 events=events, odes=ode_terms, decl=decl)
 
@@ -176,6 +177,8 @@ def spec_values(d, point):
 # ------------------------------------------------------------------ pygom construction
 def decl_states(d):
     s = d["states"]
+    if d["decl"] == "range" and not any(l is not None for l in (d.get("lims") or [])):
+        return ["y1:%d" % (len(s) + 1)]
     if d.get("lims"):
         # mixed declaration: plain names get the default (0, None); tuples carry explicit limits
         return [n if l is None else (n, tuple(l)) for n, l in zip(s, d["lims"])]
